@@ -98,7 +98,13 @@ class Executor(ResolutionContext):
         base = (
             field_definition.resolver
             or parent_type.default_resolver
-            or self._default_resolver
+            # The schema wide default resolver is the application's: it is not
+            # expected to know the objects behind the introspection types.
+            or (
+                default_resolver
+                if parent_type.name.startswith("__")
+                else self._default_resolver
+            )
         )
         try:
             return self._resolver_cache[base]
@@ -106,6 +112,7 @@ class Executor(ResolutionContext):
             wrapped = (
                 self.runtime.wrap_callable(base)
                 if base is not self._default_resolver
+                and base is not default_resolver
                 else base
             )
             if self._middlewares:
